@@ -47,7 +47,6 @@ def info_scens(ctx):
     ]
     if not ctx.quick():
         out += [
-            sc("i-tri2", TRI, ia={"a": 2, "b": 1}, exp=1, fifo=False),
             sc("i-dyn", (AB, BC), links=(AC,), dlinks=(AB,), ia={"a": 1}, conn=1, disc=1, fifo=False),
         ]
     return out
@@ -67,7 +66,9 @@ def wd_scens(ctx):
     ]
     if not ctx.quick():
         out += [
-            sc("w-tri2", TRI, loc={"a": ["r1", "r2"], "b": ["r1"]}, ra={"a": 2, "b": 1}, wn={"a": 1}),
+            sc("w-tri2a", TRI, loc={"a": ["r1", "r2"], "b": ["r1"]}, ra={"a": 1, "b": 1}, wn={"a": 1}),
+            sc("w-tri2b", TRI, loc={"a": ["r1"], "b": ["r1"]}, ra={"a": 1}, wn={"a": 1, "b": 1}),
+            sc("w-tri2c", TRI, loc={"a": ["r1", "r2"]}, ra={"a": 2}, wn={"a": 1}),
             sc("w-late2", (AB, BC), links=(AC,), dlinks=(), loc={"a": ["r1"]}, ra={"a": 1}, wn={"a": 1}, conn=1),
         ]
     return out
@@ -79,6 +80,8 @@ def big_scens(ctx):
     sq = (("a", "b"), ("b", "c"), ("c", "d"), ("a", "d"))
     return [
         (sc("i-sq4", sq, ia={"a": 1, "c": 1}, exp=1, fifo=False), A4),
+        (sc("i-tri2", TRI, ia={"a": 2, "b": 1}, exp=1, fifo=False), A3),
+        (sc("w-tri2", TRI, loc={"a": ["r1", "r2"], "b": ["r1"]}, ra={"a": 2, "b": 1}, wn={"a": 1}), A3),
         (sc("i-dyn2", (AB, BC), links=(AC,), dlinks=(AB,), ia={"a": 2}, conn=1, disc=1), A3),
         (sc("i-join2", (AB,), links=(BC, AC), ia={"a": 1, "c": 1}, conn=2, script=("ia", "conn", "ia", "conn")), A3),
         (sc("i-k4", k4, ia={"a": 1}, exp=1, forget=1, fifo=False), A4),
@@ -99,7 +102,7 @@ def run(ctx):
         jobs = []
         for name, scens, dev, invs in (("ideal", iscens + wscens, (), F.INVS), ("asbuilt", wscens, F.AS_BUILT, F.INVS_AS_BUILT)):
             mod, cfg, files = F.mc_files(scens, A3, dev=dev, emit=True, invs=invs)
-            jobs.append(dict(module=mod, name=name, files=files, workers=2, heap="4g"))
+            jobs.append(dict(module=mod, name=name, files=files, workers=2 if ctx.quick() else 4, heap="4g"))
         for d in F.DEVS:
             s, agents = F.dev_scen(d)
             mod, cfg, files = F.mc_files([s], agents, dev=[d], emit=False)
